@@ -7,6 +7,21 @@ ALL = ["C%02d" % i for i in range(1, 20)]
 
 # id -> (category, technique, level text, level note, design ref)
 CHECKS = {
+    "C12": ("exploration",
+            "bounded exhaustive enumeration of unification problems (holes punched at every position and shift) against reference conversion and scope checks",
+            "Instances are all closed type-directed terms up to 5/6 nodes; patterns are the instance with a hole punched at every position with every shift 0..depth (both argument orders) and with two holes (distinct cells, the same cell twice) at pairs of positions; plus all ordered pairs of the 400/1200 smallest terms hole-free and holed (scope-escape and occurs-check configurations), plus holed patterns under contexts with parameters and definitions. For every success of the real unify: following the solutions terminates, every solution is in scope where its hole was written, the filled-in terms are convertible in the reference, the context is untouched.",
+            "Trusted: reference conversion (fuel-bounded). `false` on a holed pair is never judged (unification is not complete across reduction). F-HOLE-COPY is a known finding attributed through hook H2.",
+            "DESIGN.md 6/C12"),
+    "C18": ("exploration",
+            "bounded exhaustive enumeration of (context, open term) pairs obtained by peeling closed programs, with snapshot comparison of the context vectors",
+            "Every closed type-directed program starting with a lambda or a definition group is peeled 1-3 binders deep; the typing and definitions contexts are built exactly as the checker pushes them (offsets 0, 1, 2) and the real type_check, normalize_weak_head and unify are called on the open body, well typed and in every single-point perturbation of the open part. Same verdict and convertible type as the closed program, normal form and unification agree with their closed counterparts, and both context vectors are pointer-identical after every call, accepted or rejected.",
+            "Trusted: reference conversion. The normalisation / unification parts are judged only when the reference reaches a full normal form within fuel (conversion with general recursion is semi-decidable).",
+            "DESIGN.md 6/C18"),
+    "C19": ("model_checking",
+            "explicit-state breadth-first search over programs under meaning-preserving rewrites, dedup on program text, behaviour compared on the real code",
+            "Initial states: every type-directed program of type int, bool or type that evaluates to a value. Transitions: seven rewrites (consistent renaming of one binder, redundant parentheses, unused definitions, naming the program, annotated identity wrapper, `if true` wrapper, swapping independent function definitions) at every applicable site. BFS to depth 2 from programs up to 4/5 nodes and depth 1 up to 6/7 nodes; every reachable program must be accepted and evaluate to the initial program's value. No reference model is involved.",
+            "Trusted: nothing beyond the rewrite definitions themselves (engine/src/props/c19.rs).",
+            "DESIGN.md 6/C19"),
     "C01": ("model_checking",
             "explicit-state exploration of the real small-step evaluator over exhaustively enumerated accepted programs, with a reference interpreter as the stuck-state oracle",
             "Every accepted program of the program space (type-directed programs up to 6/7 nodes and their annotation-omission / `_` variants, single-point perturbations of the smaller ones, all closed annotated terms up to 6/7 nodes, the alias family, the definition-order family with groups of up to 3 definitions) is run with the real evaluator::step one step at a time up to a horizon of 300/3000 steps. Every final state must be a value, or the reference interpreter started from that very state must report a division by zero; any other stuck state is a violation labelled with the reference's reason. Exhaustive over the stated space; programs beyond the horizon are reported as such.",
